@@ -16,6 +16,147 @@ import (
 
 func init() {
 	Registry["C03"] = planC03
+	Registry["C09"] = planC09
+	Registry["C18"] = planC18
+}
+
+// planC09: edits that alternate between the cases of choices (several per container,
+// nested, shorthand, inside list entries); every observed post-state is judged against
+// the merge with case switching and against OneCase.
+func planC09(tier string, seed int64) (*core.Plan, error) {
+	r := rng(seed)
+	n, h, mn := 600, 240, 2
+	if tier == "thorough" {
+		n, h, mn = 8000, 4000, 3
+	}
+	model, err := editModelRun(mn, 60)
+	if err != nil {
+		return nil, err
+	}
+	p := &core.Plan{Property: "C09", Tier: tier, Seed: seed, Level: "model_checking",
+		Models: []core.ModelRun{model},
+		Rule:   "seeded single edits and histories (6-13 steps) on S0 and S1 whose pre-state and source each select a random case of every choice (two choices per container, choice nested in a case, shorthand cases holding a leaf / container / list, choice inside list entries), all strategies, every store kind that implements case detection x source kind (JSON text, each store); non-trivial: source and target select different cases of some choice",
+		NonTrivial: func(r core.Rec) bool { return canonJSON(r["pre"]) != canonJSON(r["post"]) },
+		Assumptions: []string{"the legacy struct-backed Reflect node implements no Choose and is not a subject of C09"},
+	}
+	kinds := []string{"upsert", "upsert", "upsert", "insert", "update"}
+	for _, fname := range []string{"S0", "S1"} {
+		f, err := fx.Load(fname)
+		if err != nil {
+			return nil, err
+		}
+		if err := f.CheckDS(); err != nil {
+			return nil, err
+		}
+		stores, srcs := storesFor(fname)
+		p.Stages = append(p.Stages, core.Stage{Name: fname, EvalMod: "EvalEdit", EvalEnv: map[string]string{"SCHEMA": f.DSFile},
+			Cases: func(emit func(core.Case)) {
+				g := gen.Default
+				g.PLeaf, g.PCont, g.PList = 0.7, 0.7, 0.5
+				choiceCases(f, r, n/2, h/2, kinds, stores, srcs, g, emit)
+			}})
+	}
+	return p, nil
+}
+
+func choiceCases(f *fx.Fixture, r *rand.Rand, n, h int, kinds, stores, srcs []string, gp gen.Params, emit func(core.Case)) {
+	g := &gen.G{DS: f.DS, R: r, P: gp}
+	for i := 0; i < n; i++ {
+		pre := g.Subtree(abs.Path{})
+		nodes := gen.Nodes(pre)
+		at := nodes[r.Intn(len(nodes))]
+		emit(core.Case{"kind": "edit", "fixture": f.Name, "store": stores[i%len(stores)], "pre": pre,
+			"ops": []editOp{{K: kinds[r.Intn(len(kinds))], At: at, S: g.Subtree(at), Src: srcs[r.Intn(len(srcs))]}}})
+	}
+	for i := 0; i < h; i++ {
+		pre := g.Subtree(abs.Path{})
+		var ops []editOp
+		steps := 6 + r.Intn(8)
+		for s := 0; s < steps; s++ {
+			// containers that hold a choice: root and every container of the initial tree
+			nodes := gen.Nodes(pre)
+			at := nodes[r.Intn(len(nodes))]
+			if r.Intn(2) == 0 {
+				at = abs.Path{}
+			}
+			ops = append(ops, editOp{K: kinds[r.Intn(len(kinds))], At: at, S: g.Subtree(at), Src: srcs[r.Intn(len(srcs))]})
+		}
+		emit(core.Case{"kind": "edit", "fixture": f.Name, "store": stores[i%len(stores)], "pre": pre, "ops": ops, "history": true})
+	}
+}
+
+// planC18: delete / replace / insert / upsert histories addressed through list keys;
+// after every step Find is asked for every remaining node and for the removed one.
+func planC18(tier string, seed int64) (*core.Plan, error) {
+	r := rng(seed)
+	h, mn := 360, 2
+	if tier == "thorough" {
+		h, mn = 6000, 3
+	}
+	model, err := editModelRun(mn, 60)
+	if err != nil {
+		return nil, err
+	}
+	p := &core.Plan{Property: "C18", Tier: tier, Seed: seed, Level: "model_checking",
+		Models: []core.ModelRun{model},
+		Rule:   "seeded histories (5-12 steps) of delete / replace / insert / upsert on S0, S1, P0 addressed at every kind of deletable node (container, whole list, list entry: first, middle, last, only; nested lists; delete then re-insert of the same key), every store kind x source kind; after each step Find is asked for every container/list/entry the store holds and for the deleted node; non-trivial: the step changes the store",
+		NonTrivial: func(r core.Rec) bool {
+			if r["chk"] != "edit" {
+				return false
+			}
+			return canonJSON(r["pre"]) != canonJSON(r["post"])
+		},
+	}
+	for _, fname := range []string{"S0", "S1", "P0"} {
+		f, err := fx.Load(fname)
+		if err != nil {
+			return nil, err
+		}
+		if err := f.CheckDS(); err != nil {
+			return nil, err
+		}
+		stores, srcs := storesFor(fname)
+		p.Stages = append(p.Stages, core.Stage{Name: fname, EvalMod: "EvalEdit", EvalEnv: map[string]string{"SCHEMA": f.DSFile},
+			Cases: func(emit func(core.Case)) { deleteHistories(f, r, h/3, stores, srcs, emit) }})
+	}
+	return p, nil
+}
+
+// deleteHistories tracks the expected tree only to choose meaningful entry points (the
+// verdict comes from the specification, evaluated on the observed states).
+func deleteHistories(f *fx.Fixture, r *rand.Rand, n int, stores, srcs []string, emit func(core.Case)) {
+	gp := gen.Default
+	gp.PList, gp.PCont, gp.MaxEntries = 0.9, 0.7, 4
+	g := &gen.G{DS: f.DS, R: r, P: gp}
+	for i := 0; i < n; i++ {
+		pre := g.Subtree(abs.Path{})
+		var ops []editOp
+		steps := 5 + r.Intn(8)
+		var lastDeleted abs.Path
+		for s := 0; s < steps; s++ {
+			nodes := gen.Nodes(pre)
+			at := nodes[r.Intn(len(nodes))]
+			switch x := r.Intn(10); {
+			case x < 4 && len(at) > 0:
+				ops = append(ops, editOp{K: "delete", At: at, S: abs.NewTree()})
+				lastDeleted = at
+			case x < 6 && len(at) > 0 && (at.IsEntry() || f.DS.Node(at.SPath()).Kind == "container"):
+				ops = append(ops, editOp{K: "replace", At: at, S: g.Subtree(at), Src: srcs[r.Intn(len(srcs))]})
+			case x < 8 && lastDeleted != nil && lastDeleted.IsEntry():
+				// re-insert the entry that was deleted, into its list
+				lp := lastDeleted[:len(lastDeleted)-1]
+				src := g.Subtree(lastDeleted)
+				src.Cont = append(src.Cont, append(abs.Path{}, lp...))
+				src.Ord = append(src.Ord, abs.OrdItem{P: append(abs.Path{}, lp...), Keys: [][]string{lastDeleted[len(lastDeleted)-1].K}})
+				ops = append(ops, editOp{K: "insert", At: append(abs.Path{}, lp...), S: src.Canon(), Src: srcs[r.Intn(len(srcs))]})
+				lastDeleted = nil
+			default:
+				k := []string{"upsert", "insert"}[r.Intn(2)]
+				ops = append(ops, editOp{K: k, At: at, S: g.Subtree(at), Src: srcs[r.Intn(len(srcs))]})
+			}
+		}
+		emit(core.Case{"kind": "edit", "fixture": f.Name, "store": stores[i%len(stores)], "pre": pre, "ops": ops, "history": true, "verifyfind": true})
+	}
 }
 
 type editOp struct {
